@@ -41,6 +41,8 @@ ASSUMPTIONS = [
     'semantics with cut / greedy closures / seed-growing left recursion, for every grammar); that this semantics IS TatSu 5.7.4\'s '
     'is validated by the four-way differential, not verified; character classes are ASCII, regular expressions are matched by '
     'one hand-written matcher per pattern text (an unknown pattern text fails closed)',
+    'concurrent stream: the interleaving of the threads is the interpreter\'s (barrier per burst, sys.setswitchinterval(1e-6)); '
+    'the oracle is the serial parse of the same text in the same process; a replay repeats the recorded burst 25 times',
 ]
 EXTRA_TARGETS = ['Model/PegActions.vo']
 
@@ -1271,6 +1273,80 @@ def literal_case_sequences():
     return n, bad
 
 
+def concurrent_round(texts, reps=1, switch=1e-6):
+    """One barrier-synchronised burst per repetition: len(texts) threads, thread k parses texts[k] (fix-D).
+    -> [[result of thread k in repetition r ...] ...].  The interpreter's switch interval is lowered for the burst (and
+    restored), so that the threads really are inside beanquery.parser.parse() at the same time."""
+    import sys
+    import threading
+    n = len(texts)
+    out = [[None] * n for _ in range(reps)]
+    barrier = threading.Barrier(n)
+
+    def work(k):
+        for r in range(reps):
+            try:
+                barrier.wait(timeout=60)
+            except threading.BrokenBarrierError:
+                out[r][k] = ['exc', 'BrokenBarrier']
+                return
+            out[r][k] = run_impl(texts[k])
+    old = sys.getswitchinterval()
+    sys.setswitchinterval(switch)
+    try:
+        ths = [threading.Thread(target=work, args=(k,), daemon=True) for k in range(n)]
+        for t in ths:
+            t.start()
+        for t in ths:
+            t.join(120)
+    finally:
+        sys.setswitchinterval(old)
+    return out
+
+
+def concurrent_stream(pool, rng, rounds, nthreads):
+    """parse(text) is a function of the text, whatever else the process is parsing: `rounds` bursts of `nthreads` threads
+    parsing DIFFERENT texts at the same time; every result (type-tagged tree, or the rejection) is compared with the
+    serial parse of the same text in this process.  -> (coverage, violations)"""
+    violations, seen = [], set()
+    serial = {}
+    wrong = calls = 0
+    kinds_ = {}
+    lens_ = []
+    for r in range(rounds):
+        texts = rng.sample(pool, nthreads) if len(pool) >= nthreads else [rng.choice(pool) for _ in range(nthreads)]
+        for t in texts:
+            if t not in serial:
+                serial[t] = run_impl(t)
+                # serial parses are repeatable in the first place
+                again = run_impl(t)
+                if again != serial[t] and len(seen) < 3:
+                    seen.add('serial:' + t)
+                    violations.append(core.Violation('parse-not-a-function-of-text', f'two serial parses of {t!r} differ: {brief(serial[t])} / {brief(again)}',
+                                                     {'concurrent': True, 'texts': [t], 'reps': 2}, signature='serial-repeat:' + t))
+            lens_.append(len(t))
+        got = concurrent_round(texts)[0]
+        for t, g in zip(texts, got):
+            calls += 1
+            k = serial[t][0] if serial[t][0] == 'ok' else 'rejected'
+            kinds_[k] = kinds_.get(k, 0) + 1
+            if g != serial[t]:
+                wrong += 1
+                if len(seen) < 2:
+                    sig = 'concurrent-parse:' + brief(g if g[0] != 'ok' else ['ok', 'another tree'])
+                    if sig in seen:
+                        continue
+                    seen.add(sig)
+                    violations.append(core.Violation(
+                        'concurrent-parse', f'parse({t!r}) while {nthreads - 1} other threads parse other statements gives {brief(g)}; '
+                        f'the same call alone gives {brief(serial[t])}',
+                        {'concurrent': True, 'texts': texts, 'text': t, 'got': g, 'serial': serial[t], 'reps': 25}, signature=sig))
+    cov = {'concurrent_rounds': rounds, 'concurrent_threads': nthreads, 'concurrent_calls': calls, 'concurrent_distinct_texts': len(serial),
+           'concurrent_wrong_results': wrong, 'concurrent_serial_outcomes': kinds_, 'concurrent_text_length_histogram': lens(lens_),
+           'concurrent_switch_interval': 1e-6}
+    return cov, violations
+
+
 def run(tier, rng):
     violations = []
     quick = tier == 'quick'
@@ -1368,6 +1444,12 @@ def run(tier, rng):
                           'model accepts' if m else 'model rejects'))
     peg_cov, peg_viol = peg_stream(texts, muts, rng, quick)
     violations.extend(peg_viol)
+    # concurrent stream (fix-D): long printed statements + some rejected mutants, several threads inside parse() at once
+    cpool = sorted({t for t in texts if len(t) >= 120} | {t for t in muts[len(CORPUS):] if len(t) >= 120 and rng.random() < 0.25})
+    if len(cpool) < 8:
+        cpool = sorted(set(texts))
+    conc_cov, conc_viol = concurrent_stream(cpool, rng, 60 if quick else 600, 4)
+    violations.extend(conc_viol)
     classes = {}
     for t, a, b in infid:
         c = classify(t)
@@ -1401,6 +1483,8 @@ def run(tier, rng):
     cov['evaluations'] += t2r_cov['t2r_statements']
     cov.update(peg_cov)
     cov['evaluations'] += peg_cov['peg_texts']
+    cov.update(conc_cov)
+    cov['evaluations'] += conc_cov['concurrent_calls']
     return {'coverage': cov, 'violations': violations}
 
 
@@ -1523,6 +1607,13 @@ def shrink_tree(st, rng, rounds=8):
 
 
 def replay(rec):
+    if rec.get('concurrent'):
+        # the schedule is the interpreter's: the burst is repeated, every repetition has to agree with the serial parses
+        texts = rec['texts']
+        serial = [run_impl(t) for t in texts]
+        if len(texts) == 1:
+            return all(run_impl(texts[0]) == serial[0] for _ in range(rec.get('reps', 2)))
+        return all(got == serial for got in concurrent_round(texts, reps=rec.get('reps', 25)))
     if rec.get('t2r'):
         from . import c05, values
         c = rec['case']
